@@ -276,6 +276,7 @@ func DrawScript(r *Rng, cfg ScriptConfig, m *ModuleSpec, name string) proto.GenS
 		s.Impl = "nonew"
 	}
 	s.NoAlias = r.P(cfg.PNoAlias)
+	s.Scalar = s.Impl == "nonew" && s.NoAlias && r.P(0.5)
 	stateful := r.P(cfg.PStateful)
 	for pi := range m.Pkgs {
 		for _, td := range m.Pkgs[pi].TypeDecls() {
